@@ -98,5 +98,9 @@ func getVars(term ast.Term, vars map[ast.Variable]bool) {
 	case ast.Eq:
 		ast.AddVars(t.Left, vars)
 		ast.AddVars(t.Right, vars)
+	case ast.TemporalLiteral:
+		ast.AddVars(t, vars)
+	case ast.TemporalAtom:
+		ast.AddVars(t, vars)
 	}
 }
